@@ -299,9 +299,20 @@ let cmd_flowobs () =
     done
   with End_of_file -> ()
 
+(* ---------------- prologue: one line of positions (mentions) -> the emitted order *)
+let cmd_prologue () =
+  try
+    while true do
+      let line = input_line stdin in
+      let uses = List.map nat (split_ws line) in
+      print_endline (String.concat " " (List.map (fun n -> string_of_int (int_of_nat n)) (prologue uses)))
+    done
+  with End_of_file -> ()
+
 let () =
   match Array.to_list Sys.argv with
   | _ :: "flowobs" :: _ -> cmd_flowobs ()
+  | _ :: "prologue" :: _ -> cmd_prologue ()
   | _ :: "validate" :: _ -> cmd_validate ()
   | _ :: "sched-replay" :: _ -> cmd_sched_replay ()
   | _ :: "invert" :: _ -> cmd_invert ()
